@@ -310,6 +310,8 @@ func (r *Run) allocObligation(fr *frame, size *Term, instr ssa.Instruction) {
 		return
 	}
 	within := r.st.BvCmp(OBvSle, size, BV(64, uint64(b)))
+	r.observes = append(r.observes, obsRec{key: "alloc.size", term: size})
+	defer func() { r.observes = r.observes[:len(r.observes)-1] }()
 	if r.checkObligation(within, "alloc", "allocation-bounded", fmt.Sprintf("make() size not bounded by %d at %s", b, posStr(fr, instr.Pos())), fr) {
 		r.addPC(within)
 		if res, _ := r.sol.Check(nil, nil); res == Unsat {
